@@ -49,7 +49,8 @@ Section Challenge.
     match x with
     | PStr s => match utf8 s with Some b => Ok b | None => Err EUnicode end
     | PBytes b => Ok b
-    | _ => Unmodelled
+    | POther _ => Unmodelled
+    | _ => Err EType          (* salt + x : TypeError for None, numbers, lists, tuples (a DigestValue is one), maps *)
     end.
 
   (* DigestValue.create(plaintext, algorithm, salt) — statement order: salt checks, draw, encode, hash *)
